@@ -46,6 +46,9 @@ type verifFS struct {
 	lastU32    uint32
 	lastInt    int
 	linkTarget string
+	lastExpect uint32
+	faultClose bool // Close may fail too (C05/C15); otherwise it never does
+	walkMode   FileMode // if non-zero, the mode reported for walked nodes
 }
 
 type verifNode struct {
@@ -111,26 +114,39 @@ func (fs *verifFS) fault() error {
 	return fs.lastErr
 }
 
-// anError draws from the error alphabet of DESIGN.md Appendix C.
+// anError draws from the error alphabet of DESIGN.md Appendix C and records
+// in fs.lastExpect the errno the client must see: the errno value found in the
+// chain, else the errno conventionally denoted by the os.Err* sentinel, else EIO.
 func (fs *verifFS) anError() error {
 	if fs.errAlpha == 0 {
-		return linux.Errno(verifErrno())
+		e := verifErrno()
+		fs.lastExpect = e
+		return linux.Errno(e)
 	}
 	var base error
 	switch verifChoice(7) {
 	case 0:
-		base = linux.Errno(verifErrno())
+		e := verifErrno()
+		fs.lastExpect = e
+		base = linux.Errno(e)
 	case 1:
-		base = syscall.Errno(verifErrno())
+		e := verifErrno()
+		fs.lastExpect = e
+		base = syscall.Errno(e)
 	case 2:
+		fs.lastExpect = 2 // ENOENT
 		base = os.ErrNotExist
 	case 3:
+		fs.lastExpect = 17 // EEXIST
 		base = os.ErrExist
 	case 4:
+		fs.lastExpect = 13 // EACCES
 		base = os.ErrPermission
 	case 5:
+		fs.lastExpect = 22 // EINVAL
 		base = os.ErrInvalid
 	default:
+		fs.lastExpect = 5 // EIO
 		base = verifErr("opaque backend error")
 	}
 	switch verifChoice(4) {
@@ -183,7 +199,10 @@ func (n *verifNode) Walk(names []string) ([]QID, File, error) {
 	var qids []QID
 	cur := n
 	for _, nm := range names {
-		m := FileMode(verifNondetU32())
+		m := n.fs.walkMode
+		if m == 0 {
+			m = FileMode(verifNondetU32())
+		}
 		c := n.fs.newNode(m)
 		c.parent, c.name = cur.id, nm
 		qids = append(qids, verifQID())
@@ -270,6 +289,9 @@ func (n *verifNode) SetAttr(valid SetAttrMask, attr SetAttr) error {
 func (n *verifNode) Close() error {
 	n.rec(verifCall{op: "Close"})
 	n.closed++
+	if !n.fs.faultClose {
+		return nil
+	}
 	return n.fs.fault()
 }
 
